@@ -171,6 +171,7 @@ def report_violations(pid, viol_by_key, tier, seed):
     known = {f['key']: f for f in load_findings() if f.get('property') == pid and f.get('status') == 'known'}
     code = 0
     printed_known = set()
+    n_detail = 0
     rdir = os.path.join(VERIF_DIR, 'replays', pid)
     for key in sorted(viol_by_key, key=lambda k: (viol_by_key[k]['case_index'], k)):
         v = viol_by_key[key]
@@ -186,7 +187,9 @@ def report_violations(pid, viol_by_key, tier, seed):
                        'case': core.jsonable(v['case']), 'detail': v['detail'], 'count_in_run': v['count']}, fid, indent=1)
             fid.write('\n')
         print('VIOLATION property=%s replay=%s' % (pid, path))
-        print('    key=%s count=%d :: %s' % (key, v['count'], v['what'][:300]))
+        n_detail += 1
+        if n_detail <= 12:
+            print('    key=%s count=%d :: %s' % (key, v['count'], v['what'][:300]))
         code = 1
     return code
 
@@ -197,6 +200,11 @@ def run_check(pid, tier, seed, jobs=None, only=None, max_seconds=None, quiet=Fal
     mod = importlib.import_module(CHECKS[pid])
     env = core.Env(tier, seed)
     t0 = time.time()
+    rdir = os.path.join(VERIF_DIR, 'replays', pid)
+    if os.path.isdir(rdir) and only is None:
+        for fn in os.listdir(rdir):  # replay files of earlier runs are stale
+            if fn.endswith('.json'):
+                os.remove(os.path.join(rdir, fn))
     cases, info = mod.build_cases(tier, seed)
     if only is not None:
         cases = [c for c in cases if only in json.dumps(c)]
